@@ -239,13 +239,77 @@ pub fn gen_hist_spec(rng: &mut Rng, prof: &GenProfile, checks: Checks) -> HistSp
     }
 }
 
+/// A history with LARGE batches (hundreds to thousands of entries in one publish): sizes around powers of two
+/// from 2^7 to 2^11 and a few in between, one batch of inserts, one mixing updates (two node labels each), unchanged
+/// re-submissions and inserts, and a small one afterwards.
+pub fn gen_big_hist_spec(rng: &mut Rng, checks: Checks) -> HistSpec {
+    let e = rng.range(7, 11);
+    let base = 1u64 << e;
+    let n = match rng.below(6) {
+        0 => base - 1,
+        1 => base,
+        2 => base + 1,
+        3 => base + rng.range(2, 40),
+        _ => base + rng.below(base / 2),
+    } as usize;
+    let extra = rng.range(1, (n as u64 / 4).max(2)) as usize;
+    let universe: Vec<Vec<u8>> = (0..n + extra).map(|i| format!("u{i:05}").into_bytes()).collect();
+    let mut ops = vec![];
+    let first: Vec<(Vec<u8>, Vec<u8>)> = universe[..n].iter().map(|l| (l.clone(), [b"a-", l.as_slice()].concat())).collect();
+    ops.push(Op::Publish(first));
+    if rng.chance(1, 3) {
+        ops.push(Op::Restart);
+    }
+    // second batch: a share of updates, a share of unchanged re-submissions, all the remaining labels as inserts
+    let upd = rng.range(1, n as u64) as usize;
+    let same = rng.below((n - upd) as u64 + 1) as usize;
+    let mut second: Vec<(Vec<u8>, Vec<u8>)> = vec![];
+    for l in &universe[..upd] {
+        second.push((l.clone(), [b"b-", l.as_slice()].concat()));
+    }
+    for l in &universe[upd..upd + same] {
+        second.push((l.clone(), [b"a-", l.as_slice()].concat()));
+    }
+    for l in &universe[n..] {
+        second.push((l.clone(), [b"a-", l.as_slice()].concat()));
+    }
+    rng.shuffle(&mut second);
+    ops.push(Op::Publish(second));
+    let k = rng.range(1, 5) as usize;
+    ops.push(Op::Publish(universe[..k].iter().map(|l| (l.clone(), [b"c-", l.as_slice()].concat())).collect()));
+    HistSpec {
+        cfg: if rng.chance(1, 2) { Cfg::WhatsApp } else { Cfg::Experimental },
+        par_insert: *rng.pick(&[0, 2, 4, 32]),
+        par_preload: *rng.pick(&[0, 2, 32]),
+        cache: if rng.chance(1, 2) { CacheSpec::None } else { CacheSpec::Default },
+        policy: Policy::Fifo(0),
+        h2_mask: 0,
+        universe,
+        ops,
+        checks,
+        check_seed: rng.next_u64(),
+    }
+}
+
 pub fn shrink_hist(spec: &Value) -> Vec<Value> {
     let mut out = crate::harness::drop_candidates(spec, &["ops"]);
     // shrink individual publish batches
     if let Some(ops) = spec.get("ops").and_then(|o| o.as_array()) {
         for (i, op) in ops.iter().enumerate() {
             if let Some(b) = op.get("Publish").and_then(|b| b.as_array()) {
-                if b.len() > 1 {
+                if b.len() > 16 {
+                    // large batches: drop halves / quarters / eighths first
+                    for parts in [2usize, 4, 8] {
+                        let step = b.len() / parts;
+                        for k in 0..parts {
+                            let mut c = spec.clone();
+                            let arr = c["ops"][i]["Publish"].as_array_mut().unwrap();
+                            arr.drain(k * step..((k + 1) * step).min(b.len()));
+                            out.push(c);
+                        }
+                    }
+                }
+                if b.len() > 1 && b.len() <= 64 {
                     for j in 0..b.len() {
                         let mut c = spec.clone();
                         c["ops"][i]["Publish"].as_array_mut().unwrap().remove(j);
